@@ -407,34 +407,94 @@ Inductive outcome := ONone | OObs (o : obs) | OErr (e : merr).
 Definition cur_levels (s : machine) : list (list file) :=
   match find_ver s (ms_cur s) with Some v => v_levels v | None => [] end.
 
+Definition freed_any (s : machine) (ms : list N) : bool :=
+  existsb (fun m => match find_mt s m with Some y => mt_freed y | None => true end) ms.
+
+(* KeyValueStore::write, completed *)
+Definition do_write (b : list (key * option value)) (s : machine) : machine :=
+  let n := (ms_seq s + 1)%N in
+  let s := fold_left (fun s kv => upd_mt (mt_insert (mkE (fst kv) n (snd kv))) (ms_mem s) s) b s in
+  mkMS n n (ms_mem s) (ms_imm s) (ms_mts s) (ms_vers s) (ms_cur s) (ms_refs s) (ms_disk s) (ms_cache s) (ms_scans s) (ms_next s).
+
+(* _memtable_thread, first half: imm = clone(mem) (thread), state.imm = Some(clone(mem)), state.mem = new *)
+Definition do_rollover (s : machine) : machine :=
+  let old := ms_mem s in
+  let s := upd_mt (mt_add_store 1) old s in
+  let nm := mkMT (ms_next s) [] 1 0 false in
+  mkMS (ms_seq s + 1)%N (ms_vis s) (ms_next s) (Some old) (ms_mts s ++ [nm]) (ms_vers s) (ms_cur s)
+       (ms_refs s) (ms_disk s) (ms_cache s) (ms_scans s) (ms_next s + 1)%N.
+
+(* _memtable_thread, second half: the sst is ingested; state.imm = None; the thread's own Arc goes
+   at the end of the iteration *)
+Definition flush_levels (fid m : N) (s : machine) : list (list file) :=
+  let f := mkFile fid (look_of s m) in
+  match cur_levels s with [] => [[f]] | l0 :: r => (l0 ++ [f]) :: r end.
+Definition clear_imm (s : machine) : machine :=
+  mkMS (ms_seq s) (ms_vis s) (ms_mem s) None (ms_mts s) (ms_vers s) (ms_cur s) (ms_refs s) (ms_disk s)
+       (ms_cache s) (ms_scans s) (ms_next s).
+Definition do_flushdone (c : cfg) (fid m : N) (s : machine) : machine :=
+  let s := install_new (flush_levels fid m s) s in
+  upd_mt (mt_drop_store c) m (upd_mt (mt_drop_store c) m (clear_imm s)).
+
+(* KeyValueStore::range_scan *)
+Definition open_mems (s : machine) : list N := ms_mem s :: match ms_imm s with Some m => [m] | None => [] end.
+Definition open_fuel (s : machine) : nat :=
+  Datatypes.S (Datatypes.S (length (concat (map f_ents (concat (cur_levels s)))) +
+                            fold_right (fun m a => length (look_of s m) + a) 0 (open_mems s))).
+Definition do_open (c : cfg) (cid : N) (lo hi : bound) (s : machine) : machine * outcome :=
+  let t := ms_vis s in
+  let mems := open_mems s in
+  let v := ms_cur s in
+  let s := take_snapshot s in
+  let s := fold_left (fun s m => upd_mt mt_add_iter m s) mems s in
+  let fuel := open_fuel s in
+  let x := scan_new (look_of s) fuel lo hi t mems (cur_levels s) in
+  let opened := opened_between (XM (mkM true [])) x in
+  if freed_any s mems then (s, OErr UAF)
+  else if negb (forallb (openable s) opened) then (s, OErr ENOENT)
+  else
+    let s := if cf_cache c then set_cache s (opened ++ ms_cache s) else s in
+    let s := set_scans s (ms_scans s ++ [mkScan cid t mems v (cf_holds_ver c) x]) in
+    (* pre-repair: the VersionRef is a local of range_scan and drops when it returns *)
+    let s := if cf_holds_ver c then s else vref_drop v s in
+    (s, OObs (scan_obs (look_of s) fuel x)).
+
+(* one call on a held cursor *)
+Definition put_scan (cid : N) (sc : scan) (x' : xst) (s : machine) : machine :=
+  set_scans s (map (fun y => if N.eqb (sc_id y) cid
+                             then mkScan cid (sc_t sc) (sc_mems sc) (sc_ver sc) (sc_holds sc) x' else y) (ms_scans s)).
+Definition do_step (c : cfg) (cid : N) (sc : scan) (o : op) (s : machine) : machine * outcome :=
+  let x := sc_x sc in
+  let fuel := scan_fuel s x in
+  if freed_any s (xmems x) then (s, OErr UAF)
+  else
+    let x' := scan_step (look_of s) fuel o x in
+    let opened := opened_between x x' in
+    if negb (forallb (openable s) opened) then (s, OErr ENOENT)
+    else
+      let s := if cf_cache c then set_cache s (opened ++ ms_cache s) else s in
+      let s := put_scan cid sc x' s in
+      (s, OObs (scan_obs (look_of s) fuel x')).
+
+(* dropping a cursor: fields drop in order: the inner cursor (lazies: handles; wrappers:
+   iterators), then the VersionRef *)
+Definition do_close (c : cfg) (cid : N) (sc : scan) (s : machine) : machine :=
+  let s := set_scans s (filter (fun y => negb (N.eqb (sc_id y) cid)) (ms_scans s)) in
+  let s := fold_left (fun s m => upd_mt (mt_drop_iter c) m s) (sc_mems sc) s in
+  if sc_holds sc then vref_drop (sc_ver sc) s else s.
+
 Definition mstep (c : cfg) (s : machine) (e : event) : machine * outcome :=
   match e with
-  | EWrite b =>
-      let n := (ms_seq s + 1)%N in
-      let s := fold_left (fun s kv => upd_mt (mt_insert (mkE (fst kv) n (snd kv))) (ms_mem s) s) b s in
-      (mkMS n n (ms_mem s) (ms_imm s) (ms_mts s) (ms_vers s) (ms_cur s) (ms_refs s) (ms_disk s) (ms_cache s) (ms_scans s) (ms_next s), ONone)
+  | EWrite b => (do_write b s, ONone)
   | ERollover =>
       match ms_imm s with
       | Some _ => (s, OErr BadEvent)          (* the thread is still flushing the previous one *)
-      | None =>
-          (* imm = clone(mem) (thread), state.imm = Some(clone(mem)), state.mem = new *)
-          let old := ms_mem s in
-          let s := upd_mt (mt_add_store 1) old s in
-          let nm := mkMT (ms_next s) [] 1 0 false in
-          (mkMS (ms_seq s + 1)%N (ms_vis s) (ms_next s) (Some old) (ms_mts s ++ [nm]) (ms_vers s) (ms_cur s)
-                (ms_refs s) (ms_disk s) (ms_cache s) (ms_scans s) (ms_next s + 1)%N, ONone)
+      | None => (do_rollover s, ONone)
       end
   | EFlushDone fid =>
       match ms_imm s with
       | None => (s, OErr BadEvent)
-      | Some m =>
-          let f := mkFile fid (look_of s m) in
-          let levels := match cur_levels s with [] => [[f]] | l0 :: r => (l0 ++ [f]) :: r end in
-          let s := install_new levels s in
-          (* state.imm = None; the thread's own Arc goes at the end of the iteration *)
-          let s := upd_mt (mt_drop_store c) m (upd_mt (mt_drop_store c) m s) in
-          (mkMS (ms_seq s) (ms_vis s) (ms_mem s) None (ms_mts s) (ms_vers s) (ms_cur s) (ms_refs s) (ms_disk s)
-                (ms_cache s) (ms_scans s) (ms_next s), ONone)
+      | Some m => (do_flushdone c fid m s, ONone)
       end
   | EInstall levels => (install_new levels s, ONone)
   | EUnlinkTrash fs => (set_disk s (fold_left (fun d f => disk_unlink f d) fs (ms_disk s)), ONone)
@@ -442,51 +502,17 @@ Definition mstep (c : cfg) (s : machine) (e : event) : machine * outcome :=
   | EOpen cid lo hi =>
       match find_scan s cid with
       | Some _ => (s, OErr BadEvent)
-      | None =>
-          let t := ms_vis s in
-          let mems := ms_mem s :: match ms_imm s with Some m => [m] | None => [] end in
-          let v := ms_cur s in
-          let s := take_snapshot s in
-          let s := fold_left (fun s m => upd_mt mt_add_iter m s) mems s in
-          let levels := cur_levels s in
-          let fuel := Datatypes.S (Datatypes.S (length (concat (map f_ents (concat levels))) +
-                                                fold_right (fun m a => length (look_of s m) + a) 0 mems)) in
-          let x := scan_new (look_of s) fuel lo hi t mems levels in
-          let opened := opened_between (XM (mkM true [])) x in
-          if existsb (fun m => match find_mt s m with Some y => mt_freed y | None => true end) mems then (s, OErr UAF)
-          else if negb (forallb (openable s) opened) then (s, OErr ENOENT)
-          else
-            let s := if cf_cache c then set_cache s (opened ++ ms_cache s) else s in
-            let s := set_scans s (ms_scans s ++ [mkScan cid t mems v (cf_holds_ver c) x]) in
-            (* pre-repair: the VersionRef is a local of range_scan and drops when it returns *)
-            let s := if cf_holds_ver c then s else vref_drop v s in
-            (s, OObs (scan_obs (look_of s) fuel x))
+      | None => do_open c cid lo hi s
       end
   | EStep cid o =>
       match find_scan s cid with
       | None => (s, OErr BadEvent)
-      | Some sc =>
-          let x := sc_x sc in
-          let fuel := scan_fuel s x in
-          if existsb (fun m => match find_mt s m with Some y => mt_freed y | None => true end) (xmems x) then (s, OErr UAF)
-          else
-            let x' := scan_step (look_of s) fuel o x in
-            let opened := opened_between x x' in
-            if negb (forallb (openable s) opened) then (s, OErr ENOENT)
-            else
-              let s := if cf_cache c then set_cache s (opened ++ ms_cache s) else s in
-              let s := set_scans s (map (fun y => if N.eqb (sc_id y) cid then mkScan cid (sc_t sc) (sc_mems sc) (sc_ver sc) (sc_holds sc) x' else y) (ms_scans s)) in
-              (s, OObs (scan_obs (look_of s) fuel x'))
+      | Some sc => do_step c cid sc o s
       end
   | EClose cid =>
       match find_scan s cid with
       | None => (s, OErr BadEvent)
-      | Some sc =>
-          (* fields drop in order: the inner cursor (lazies: handles; wrappers: iterators), then the VersionRef *)
-          let s := set_scans s (filter (fun y => negb (N.eqb (sc_id y) cid)) (ms_scans s)) in
-          let s := fold_left (fun s m => upd_mt (mt_drop_iter c) m s) (sc_mems sc) s in
-          let s := if sc_holds sc then vref_drop (sc_ver sc) s else s in
-          (s, ONone)
+      | Some sc => (do_close c cid sc s, ONone)
       end
   end.
 
